@@ -278,6 +278,8 @@ func (g *ExprGen) Expr(kind string, d int) string {
 			}
 		}
 		return "`a+`"
+	case "caretpat":
+		return "`" + g.pickS("caretpat", "a|^b", "ab^c", "a^", "(a|^b)", "x|^y", "xy^z", "^a|^b", "ab|^c", "a$b", "a|b$", "(a$)|b", "^a^b", "a|^b|^c", "ab^", "(^a)(^b)", "a(?:^b|c)") + "`"
 	case "size":
 		return g.pickS("size", "1", "2", "8", "15", "16", "17", "20", "64", "65", "200", "1000")
 	case "ntype":
